@@ -24,7 +24,11 @@ ASSUMPTIONS = ["recovery tolerances: UBI 2e-5 relative, translation 5 um (about 
 
 CELLS = {"cubicF": ([4.05, 4.05, 4.05, 90., 90., 90.], "F", "cubic"),
          "hexagonal": ([2.95, 2.95, 4.68, 90., 90., 120.], "P", "hexagonal"),
-         "orthorhombic": ([4.1, 5.2, 6.3, 90., 90., 90.], "P", "orthorhombic")}
+         "orthorhombic": ([4.1, 5.2, 6.3, 90., 90., 90.], "P", "orthorhombic"),
+         "tetragonal": ([3.9, 3.9, 5.7, 90., 90., 90.], "P", "tetragonal"),
+         "monoclinic_a": ([4.2, 5.1, 6.3, 103., 90., 90.], "P", "monoclinic_a"),
+         "monoclinic_b": ([4.2, 5.1, 6.3, 90., 101., 90.], "P", "monoclinic_b"),
+         "monoclinic_c": ([4.2, 5.1, 6.3, 90., 90., 97.], "P", "monoclinic_c")}
 
 
 def shard_layout(tier):
@@ -74,7 +78,7 @@ def simulate(case):
     cell, sym, symname = CELLS[case["lattice"]]
     B = gens.busing_levy_B(cell)
     from vf.props.c03 import brute
-    S, _ = brute(cell, sym, 1.0 if case["lattice"] != "orthorhombic" else 0.75)
+    S, _ = brute(cell, sym, 1.0 if case["lattice"] in ("cubicF", "hexagonal") else 0.75)
     hk = np.array(sorted(S), float).T                     # 3 x n
     grains = []
     rows = []
